@@ -44,6 +44,7 @@ def run(tier):
     quick = tier == "quick"
     cfgs = ["hook", "asan"]
     common.build(cfgs)
+    common.replay_witnesses(ck, ["hook"])
     progs = workload(ck, quick)
     nseeded = 2 if quick else 8
     cases = []
